@@ -463,8 +463,16 @@ func writesTemplatesMap(f *ssa.Function) bool {
 // checkEncoderCopies: every copy() of a caller-supplied byte value into the record buffer is preceded by a test of
 // the source.
 func checkEncoderCopies(p *Prog, r *Report, enc *ssa.Function) {
-	n := 0
-	eachInstr(enc, func(in ssa.Instruction) {
+	// on every path from the entry to the copy, a branch has tested the source (nil test or a test of its length) -
+	// the test may sit in a helper spliced back by the normaliser, and then it does not dominate the copy: paths decide
+	type site struct {
+		construct, tested string
+		untested          bool
+	}
+	sites := map[ssa.Instruction]*site{}
+	var order []ssa.Instruction
+	w := &absWalker{MaxPaths: 20000}
+	w.OnInstr = func(st *absState, in ssa.Instruction) {
 		c, ok := in.(*ssa.Call)
 		if !ok {
 			return
@@ -473,18 +481,14 @@ func checkEncoderCopies(p *Prog, r *Report, enc *ssa.Function) {
 		if !ok || b.Name() != "copy" {
 			return
 		}
-		src := stripChange(c.Call.Args[1])
 		origin := ""
-		var srcVal ssa.Value = src
+		var srcVal ssa.Value = st.resolve(c.Call.Args[1])
 		for i := 0; i < 4; i++ {
 			switch x := srcVal.(type) {
 			case *ssa.Call:
 				origin = calleeName(&x.Call)
 			case *ssa.Convert:
-				srcVal = x.X
-				continue
-			case *ssa.ChangeType:
-				srcVal = x.X
+				srcVal = st.resolve(x.X)
 				continue
 			case *ssa.Slice:
 				if _, ok := x.X.(*ssa.Alloc); ok {
@@ -496,29 +500,48 @@ func checkEncoderCopies(p *Prog, r *Report, enc *ssa.Function) {
 		if origin == "" || origin == "literal" {
 			return
 		}
-		n++
-		short := origin[strings.LastIndex(origin, ".")+1:]
-		construct := fmt.Sprintf("%s: copy of %s into the record buffer", fnKey(enc), short)
+		sx := sites[in]
+		if sx == nil {
+			short := origin[strings.LastIndex(origin, ".")+1:]
+			sx = &site{construct: fmt.Sprintf("%s: copy of %s into the record buffer", fnKey(enc), short)}
+			sites[in] = sx
+			order = append(order, in)
+		}
+		k := st.key(srcVal)
 		tested := ""
-		for _, fct := range blockFacts(in.Block()) {
-			// nil test of the source
-			if fct.X == srcVal && fct.Op == token.NEQ {
-				if cst, ok := fct.Y.(*ssa.Const); ok && cst.IsNil() {
-					tested = "source tested for nil (To4/To16 return exactly 4/16 bytes or nil)"
-				}
-			}
-			// length test of the source
-			for _, side := range []ssa.Value{fct.X, fct.Y} {
-				if lc, ok := side.(*ssa.Call); ok {
-					if bb, ok := lc.Call.Value.(*ssa.Builtin); ok && bb.Name() == "len" && stripChange(lc.Call.Args[0]) == srcVal {
-						tested = "source length tested"
-					}
-				}
+		if isNil, ok := st.bools["nil:"+k]; ok && !isNil {
+			tested = "source tested for nil (To4/To16 return exactly 4/16 bytes or nil)"
+		}
+		lk := "len(" + k + ")"
+		_, okLo := st.lo[lk]
+		_, okHi := st.hi[lk]
+		if okLo || okHi {
+			tested = "source length tested"
+		}
+		for _, rel := range st.rels {
+			if strings.Contains(rel, lk) {
+				tested = "source length tested"
 			}
 		}
-		r.Check(tested != "", "R-ERR.encoder-copy", construct, p.instrPos(in), tested,
+		if tested == "" {
+			sx.untested = true
+		} else {
+			sx.tested = tested
+		}
+	}
+	if len(enc.Blocks) > 0 {
+		w.walk(newAbsState(), enc.Blocks[0], 0)
+	}
+	if w.Overflow || w.Looped {
+		r.Undecided("R-ERR.encoder-copy", "anchor: paths of the encoder", p.pos(enc.Pos()), "the encoder is not a loop-free decision any more")
+		return
+	}
+	n := len(order)
+	for _, in := range order {
+		sx := sites[in]
+		r.Check(!sx.untested && sx.tested != "", "R-ERR.encoder-copy", sx.construct, p.instrPos(in), sx.tested,
 			"a caller-supplied byte value is copied into its fixed-width slot without any test of its length: a value of the wrong length is silently truncated / zero-padded instead of yielding an error", true)
-	})
+	}
 	if n < 4 {
 		r.Undecided("R-ERR.encoder-copy", "anchor: raw copies in the encoder", p.pos(enc.Pos()), fmt.Sprintf("only %d found", n))
 	}
